@@ -66,9 +66,30 @@ def rand_rules(rng, R, nN=3, V=("a", "b"), nrules=5, maxbody=3, shape="any", dup
             body = tuple(rng.choice(list(V)) for _ in range(L))
             if rng.random() < 0.6:
                 body = body + (rng.choice(Ns),)
+        elif shape == "leftcycle":
+            L = rng.choice([0, 1, 1, 2, 2, 3])
+            body = tuple(rng.choice(Ns + list(V)) for _ in range(L))
         else:
             raise ValueError(shape)
         rules.append((rng.choice(ws), h, body))
+    if shape == "leftcycle":
+        # a left-corner cycle through 2-3 nonterminals (X -> Y ..., Y -> Z ..., Z -> X ...), branches that re-enter it,
+        # nullable members and terminal exits: stresses prediction / left-corner closures
+        ring = Ns[:]
+        rng.shuffle(ring)
+        ring = ring[: rng.choice([2, 3]) if nN >= 3 else 2]
+        for x, y in zip(ring, ring[1:] + ring[:1]):
+            tail = tuple(rng.choice(Ns + list(V)) for _ in range(rng.choice([0, 1, 1, 2])))
+            rules.append((rng.choice(ws), x, (y,) + tail))
+            if rng.random() < 0.5:
+                rules.append((rng.choice(ws), x, (y, y) + tail[:1]))
+        for x in ring:
+            if rng.random() < 0.6:
+                rules.append((rng.choice(ws), x, (rng.choice(list(V)),)))
+            if rng.random() < 0.3:
+                rules.append((rng.choice(ws), x, ()))
+        rules.append((rng.choice(ws), ring[0], (rng.choice(list(V)),)))
+        rng.shuffle(rules)
     # exact duplicates (same weight, head and body) are part of several properties' quantifiers
     while rules and rng.random() < dup:
         rules.insert(rng.randrange(len(rules) + 1), rng.choice(rules))
